@@ -15,14 +15,17 @@ namespace {
 constexpr u32 MAIN = 0x0100, H0 = 0x0040;
 
 struct Rec {
-    u64 seq;
+    u64 seq;  // event number when the call returned (reads, handlers) / was invoked (sends)
+    u64 seq0 = 0; // reads: event number when the call was invoked (a read spans [seq0, seq])
     u8 thread; // 0 = DSP thread (handlers), 1.. = host threads
     u8 kind;   // 0 send, 1 recv, 2 handler, 3 poll
     u8 ch;
     u16 value;
 };
 
-void build_firmware(Asm& a, bool irq_driven, bool reconf, bool sem_service) {
+constexpr u32 H1 = 0x00C0;
+
+void build_firmware(Asm& a, bool irq_driven, bool reconf, bool sem_service, bool timer_irq) {
     auto service = [&](bool save) {
         if (save) {
             a.w(op::PUSH_R0).w(op::PUSH_R1);
@@ -50,12 +53,19 @@ void build_firmware(Asm& a, bool irq_driven, bool reconf, bool sem_service) {
     };
     a.org(0).br(MAIN);
     a.org(0x0006).br(H0);
+    a.org(0x000E).br(H1);
     a.org(H0);
     service(true);
     a.w(op::RETI);
+    // an unrelated, frequent interrupt source: timer 0 on int1, handler acknowledges and returns
+    a.org(H1);
+    a.w(op::PUSH_R0).w(op::PUSH_R1);
+    a.store_imm(MMIO + 0x202, 0x0400);
+    a.w(op::POP_R1).w(op::POP_R0);
+    a.w(op::RETI);
     a.org(MAIN);
     a.mov_imm(op::SP, 0x0F00);
-    a.mov_imm_sttmod(op::MOD3, (u16)(irq_driven ? 0x0180 : 0x0000));
+    a.mov_imm_sttmod(op::MOD3, (u16)((irq_driven ? 0x0180 : 0x0000) | (timer_irq ? 0x0280 : 0)));
     if (irq_driven) {
         a.idle();
     } else {
@@ -105,7 +115,7 @@ public:
         return {1, 0};
     }
     std::vector<std::pair<std::string, s64>> simplest_knobs() const override {
-        return {{"reenter", 0}, {"reconf", 0}, {"sem", 0}, {"pct", 0}, {"stall_len", 0}, {"hosts", 1}};
+        return {{"timer_irq", 0}, {"reenter", 0}, {"reconf", 0}, {"sem", 0}, {"pct", 0}, {"stall_len", 0}, {"hosts", 1}};
     }
 
     Plan generate(u64 seed, const Tier& tier) override {
@@ -115,6 +125,8 @@ public:
         p.set_knob("reenter", (s64)r.below(4));
         p.set_knob("reconf", (s64)r.chance(1, 3));
         p.set_knob("sem", (s64)r.chance(1, 2));
+        p.set_knob("timer_irq", (s64)r.chance(1, 2));
+        p.set_knob("timer_period", (s64)r.range(9, 60));
         int hosts = tier.thorough && r.chance(1, 2) ? 2 : (r.chance(1, 4) ? 2 : 1);
         p.set_knob("hosts", hosts);
         p.set_knob("sched_seed", (s64)(r.next() & 0xFFFFFFFF));
@@ -183,14 +195,15 @@ public:
                 if (s.arg(2) && !t.SendDataIsEmpty(ch))
                     break;
                 u16 v = (u16)((ch + 1) << 12 | (next_seq[ch]++ & 0xFFF));
-                sh->rec[h].push_back(Rec{sched::seq(), (u8)h, 0, ch, v});
+                sh->rec[h].push_back(Rec{sched::seq(), 0, (u8)h, 0, ch, v});
                 t.SendData(ch, v);
                 break;
             }
             case 1:
                 if (t.RecvDataIsReady(ch)) {
+                    u64 invoked = sched::seq();
                     u16 v = t.RecvData(ch);
-                    sh->rec[h].push_back(Rec{sched::seq(), (u8)h, 1, ch, v});
+                    sh->rec[h].push_back(Rec{sched::seq(), invoked, (u8)h, 1, ch, v});
                 }
                 break;
             case 2:
@@ -233,11 +246,12 @@ public:
             t.SetRecvDataHandler(ch, [&sh, ch]() {
                 // runs on whichever thread performed the send (the DSP thread for guest stores)
                 std::vector<Rec>& mine = sh.rec[sched::self() < 0 ? 3 : sched::self()];
-                mine.push_back(Rec{sched::seq(), 0, 2, ch, 0});
+                mine.push_back(Rec{sched::seq(), 0, 0, 2, ch, 0});
                 if (sh.reenter == 1) {
                     if (sh.box->t->RecvDataIsReady(ch)) {
+                        u64 invoked = sched::seq();
                         u16 v = sh.box->t->RecvData(ch);
-                        mine.push_back(Rec{sched::seq(), 0, 1, ch, v});
+                        mine.push_back(Rec{sched::seq(), invoked, 0, 1, ch, v});
                     }
                 } else if (sh.reenter == 2) {
                     (void)sh.box->t->PeekRecvData(ch);
@@ -253,13 +267,14 @@ public:
         }
         t.SetSemaphoreHandler([&sh]() {
             // may run on a host thread too: unmasking a pending semaphore interrupts the host from MaskSemaphore
-            sh.rec[sched::self() < 0 ? 3 : sched::self()].push_back(Rec{sched::seq(), 0, 2, 3, 0});
+            sh.rec[sched::self() < 0 ? 3 : sched::self()].push_back(Rec{sched::seq(), 0, 0, 2, 3, 0});
             if (sh.reenter)
                 (void)sh.box->t->GetSemaphore();
         });
         Asm a;
         bool irq_driven = plan.knob("irq_driven", 0) != 0;
-        build_firmware(a, irq_driven, plan.knob("reconf", 0) != 0, plan.knob("sem", 0) != 0);
+        const bool timer_irq = plan.knob("timer_irq", 0) != 0;
+        build_firmware(a, irq_driven, plan.knob("reconf", 0) != 0, plan.knob("sem", 0) != 0, timer_irq);
         b.load(a.words);
         for (u16 o = 0x206; o <= 0x20C; o += 2)
             t.MMIOWrite(o, 0);
@@ -270,6 +285,12 @@ public:
         }
         t.MMIOWrite(0x20, 0x0100);
         t.MMIOWrite(0x30, 0x0100);
+        if (timer_irq) {
+            t.MMIOWrite(0x208, 0x0400); // IRQ 10 (timer 0) -> int1
+            t.MMIOWrite(0x24, (u16)plan.knob("timer_period", 23));
+            t.MMIOWrite(0x26, 0);
+            t.MMIOWrite(0x20, timer_cfg_word(1, false, false, true)); // auto-restart, running
+        }
         // ---- the simulated threads
         sched::Config cfg;
         cfg.seed = (u64)plan.knob("sched_seed", 1);
@@ -368,9 +389,20 @@ public:
                     out.violate("C19.duplicate", fmt("the only reader of reply channel %u read 0x%04x twice although it reads only when the "
                                                      "data-ready flag is set and every value is sent once (stale data delivered as fresh)",
                                                      r.ch, r.value));
-                else if (r.value < last_recv[r.ch])
-                    out.violate("C19.reordered", fmt("host read 0x%04x from reply channel %u after it had already read 0x%04x", r.value, r.ch,
-                                                     last_recv[r.ch]));
+                else {
+                    // order: a read may only be compared with reads that had RETURNED before it was invoked
+                    // (two host threads may read the same channel concurrently; their records interleave)
+                    for (auto& e : all) {
+                        if (&e == &r)
+                            break;
+                        if (e.kind == 1 && e.ch == r.ch && e.seq < r.seq0 && r.value < e.value) {
+                            out.violate("C19.reordered", fmt("a read of reply channel %u that started at event %llu returned 0x%04x although an earlier "
+                                                             "read (finished at event %llu) had already returned 0x%04x", r.ch,
+                                                             (unsigned long long)r.seq0, r.value, (unsigned long long)e.seq, e.value));
+                            break;
+                        }
+                    }
+                }
                 last_recv[r.ch] = r.value;
             }
         }
